@@ -1411,10 +1411,11 @@ func (l *lexer) scanParamExpInBraces() bool {
 	}
 	// name
 	switch r, _ = l.read(); r {
-	case '@', '*', '?', '-', '$', '!', '0':
+	case '@', '*', '?', '-', '$', '!':
 		// special parameter
 		l.b.WriteByte(byte(r))
 	default:
+		// (0 is a special parameter, 01 a positional parameter)
 		// XBD Name
 		for l.isNameRune(r) {
 			l.b.WriteRune(r)
